@@ -37,7 +37,7 @@ from vf.core.runner import Ctx
 PROPERTY = "C18"
 LEVEL = "exploration"
 ENGINE = "E1-SEQ"
-SHARDS = {"quick": 4, "thorough": 16}
+SHARDS = {"quick": 8, "thorough": 16}
 RULE = (
     "inputs: all byte strings of length <=6 (quick) / <=8 (thorough) over {00,41,ff} + (thorough) length <=4 over "
     "{00,01,41,ff} + structured inputs (zeros / ramp / LCG-noise) at sizes around the 64 KiB read chunk "
@@ -160,13 +160,29 @@ def pieces(data: bytes) -> list[bytes]:
     return [p for p in (data[:a], data[a:b], data[b:]) if p] or [data]
 
 
+_ZCTX: dict[Any, Any] = {}
+_TABLES: dict[str, Any] = {}
+STREAMING = {"compressobj", "compressobj-blocks"}
+
+
+def producers(codec: str) -> list[tuple[str, Callable[[bytes, int | None], bytes], bool]]:
+    if codec not in _TABLES:
+        _TABLES[codec] = zstd_producers() if codec == "zstd" else gzip_producers()
+    return _TABLES[codec]
+
+
 def zstd_producers() -> list[tuple[str, Callable[[bytes, int | None], bytes], bool]]:
     """(name, fn(data, level), takes_level)."""
     import pyarrow as pa
     import zstandard as zs
 
-    def lvl(level: int | None) -> int:
-        return 3 if level is None else level
+    def cctx(level: int | None, **kw: Any) -> Any:
+        # compression contexts are cached: a streaming context of unknown source size costs up to seconds
+        # to set up at high levels, and it is only the producer (not the code under test)
+        key = (3 if level is None else level, tuple(sorted(kw.items())))
+        if key not in _ZCTX:
+            _ZCTX[key] = zs.ZstdCompressor(level=key[0], **kw)
+        return _ZCTX[key]
 
     def repo(data: bytes, level: int | None) -> bytes:
         from vgi_rpc._codec import Encoding, compress
@@ -174,14 +190,14 @@ def zstd_producers() -> list[tuple[str, Callable[[bytes, int | None], bytes], bo
         return compress(Encoding.ZSTD, data, level=level) if level is not None else compress(Encoding.ZSTD, data)
 
     def nosize(data: bytes, level: int | None) -> bytes:
-        return zs.ZstdCompressor(level=lvl(level), write_content_size=False).compress(data)
+        return cctx(level, write_content_size=False).compress(data)
 
     def cobj(data: bytes, level: int | None) -> bytes:
-        co = zs.ZstdCompressor(level=lvl(level)).compressobj()
+        co = cctx(level).compressobj()
         return co.compress(data) + co.flush()
 
     def cobj_blocks(data: bytes, level: int | None) -> bytes:
-        co = zs.ZstdCompressor(level=lvl(level)).compressobj()
+        co = cctx(level).compressobj()
         out = b""
         for p in pieces(data):
             out += co.compress(p) + co.flush(zs.COMPRESSOBJ_FLUSH_BLOCK)
@@ -189,13 +205,13 @@ def zstd_producers() -> list[tuple[str, Callable[[bytes, int | None], bytes], bo
 
     def writer_sized(data: bytes, level: int | None) -> bytes:
         out = io.BytesIO()
-        with zs.ZstdCompressor(level=lvl(level)).stream_writer(out, size=len(data), closefd=False) as w:
+        with cctx(level).stream_writer(out, size=len(data), closefd=False) as w:
             for p in pieces(data):
                 w.write(p)
         return out.getvalue()
 
     def checksum(data: bytes, level: int | None) -> bytes:
-        return zs.ZstdCompressor(level=lvl(level), write_checksum=True).compress(data)
+        return cctx(level, write_checksum=True).compress(data)
 
     def arrow(data: bytes, level: int | None) -> bytes:
         sink = pa.BufferOutputStream()
@@ -264,13 +280,15 @@ def gzip_producers() -> list[tuple[str, Callable[[bytes, int | None], bytes], bo
     ]
 
 
-def levels(ctx_quick: bool, codec: str, structured: bool) -> list[int | None]:
+def levels(ctx_quick: bool, codec: str, structured: bool, streaming: bool = False) -> list[int | None]:
+    """Levels per tier. Size-less streaming zstd contexts above level 8 cost seconds and up to ~1 GB each to set
+    up, so the streaming producers take {.., 1..8, 19}; the decoder under test does not depend on the level."""
     if codec == "zstd":
         if ctx_quick:
-            return [None, 1, 3, 19]
+            return [None, 1, 3] + ([] if streaming else [19])
         if structured:
-            return [None, -1, 1, 3, 19, 22]
-        return [None] + list(range(-5, 0)) + list(range(1, 23))
+            return [None, -1, 1, 3, 19] + ([] if streaming else [22])
+        return [None] + list(range(-5, 0)) + list(range(1, 9)) + ([19] if streaming else list(range(9, 23)))
     if ctx_quick:
         return [None, 0, 1, 6, 9]
     return [None, -1] + list(range(0, 10))
@@ -305,8 +323,7 @@ def make_frame(codec: str, producer: str, data: bytes, level: int | None) -> byt
         from vgi_rpc._codec import Encoding, compress
 
         return compress(Encoding.IDENTITY, data, level=level) if level is not None else compress(Encoding.IDENTITY, data)
-    table = zstd_producers() if codec == "zstd" else gzip_producers()
-    fn = next(f for name, f, _ in table if name == producer)
+    fn = next(f for name, f, _ in producers(codec) if name == producer)
     return fn(data, level)
 
 
@@ -326,16 +343,17 @@ def judge(ctx: Ctx, spec: dict[str, Any], data: bytes, codec: str, producer: str
     except Exception as e:  # noqa: BLE001 - any other failure is judged below
         outcome = "exc:" + type(e).__name__
     case = {"data": spec, "codec": codec, "producer": producer, "level": level, "cap": cap}
-    cls = f"{codec}:{sized}"
+    # key = codec / frame kind / failure kind (one root cause -> one key); the len-vs-cap relation is in the message
+    cls = codec if codec != "zstd" else f"{codec}:{sized}"
     if want_ok and outcome != "ok":
         kind = {"mismatch": "roundtrip-mismatch", "limit": "spurious-limit"}.get(outcome, "error-" + outcome[4:])
-        ctx.fail(f"{cls}:{kind}:{rel}",
-                 f"decompress({codec}, frame from {producer} level={level}, len={n}, cap={cap}) -> {outcome}; "
+        ctx.fail(f"{cls}:{kind}",
+                 f"decompress({codec}, frame from {producer} level={level}, len={n}, cap={cap} [{rel}]) -> {outcome}; "
                  f"expected the original {n} bytes", case)
     elif not want_ok and outcome != "limit":
         kind = "cap-ignored" if outcome == "ok" else ("cap-wrong-bytes" if outcome == "mismatch" else "cap-wrong-error-" + outcome[4:])
-        ctx.fail(f"{cls}:{kind}:{rel}",
-                 f"decompress({codec}, frame from {producer} level={level}, len={n}, cap={cap}) -> {outcome}; "
+        ctx.fail(f"{cls}:{kind}",
+                 f"decompress({codec}, frame from {producer} level={level}, len={n}, cap={cap} [{rel}]) -> {outcome}; "
                  f"expected DecompressionLimitExceeded because {n} > {cap}", case)
     ctx.case(
         sample=dict(case, frame_len=len(frame), outcome=outcome) if sample else None,
@@ -353,10 +371,9 @@ def run_input(ctx: Ctx, spec: dict[str, Any], want_samples: bool) -> None:
         if codec == "identity":
             plan: list[tuple[str, int | None]] = [("repo", None)] + ([("repo", 5)] if not structured else [])
         else:
-            table = zstd_producers() if codec == "zstd" else gzip_producers()
             plan = []
-            for name, _fn, takes_level in table:
-                for lv in levels(ctx.quick, codec, structured) if takes_level else [None]:
+            for name, _fn, takes_level in producers(codec):
+                for lv in levels(ctx.quick, codec, structured, name in STREAMING) if takes_level else [None]:
                     plan.append((name, lv))
         for producer, lv in plan:
             frame = make_frame(codec, producer, data, lv)
